@@ -28,13 +28,20 @@ python3 - "$ID" "$NAME" "$DEMO" "$RW" "$RS" "$RO" "$RES" "$OUT" "$HEADC" <<'PY'
 import json,sys,os,re
 pid,name,demo,rw,rs,ro,res,out,headc=sys.argv[1:10]
 checks={}
+try:
+    checks=json.load(open(out+'/meta.json')).get('our_checks',{})   # results of checks not re-run now are kept as they were
+except Exception:
+    pass
+rerun=[]
 for tok in res.split():
     c,rc=tok.split(':')
     log=open('%s/check_%s.log'%(out,c)).read()
     checks[c]={"exit":int(rc),"fingerprints":sorted(set(re.findall(r'fingerprint=(\S+)',log)))[:6]}
+    rerun.append(c)
 meta={"property":pid,"seed":name,"demonstration_test":demo,
  "confirmed":{"demo_fails_with_change":int(rw)!=0,"suite_passes_with_change":int(rs)==0,"demo_passes_without_change":int(ro)==0},
  "our_checks":checks,
+ "checks_rerun_against_final_harness":rerun,
  "what_it_needs":"see NOTES.md (written by the independent sub-agent that seeded the change)",
  "ran":["go test -run ^%s$ . (with / without patch, scratch worktree)"%demo,"go test -mod=mod -vet=off -count=1 -timeout 25m ./... (with patch, scratch worktree)",
         "first confirmation: git -C /repo apply patch.diff; ./vf check <id>; git -C /repo checkout -- .",
